@@ -13,18 +13,21 @@ A scenario is a JSON-able dict (see futb_model.scenario_to_coq for the same data
   target   None | host index  (execute(..., host=...))
   pools    initial pool state per host: 0 missing 1 shutdown 2 NoConnectionsAvailable 3 ConnectionBusy(send_msg)
            4 borrow raises other exception 5 send_msg raises ConnectionShutdown 6 healthy
-  idem     statement.is_idempotent ; spec = [policy present?, max_attempts]
+  idem     is_idempotent of the statement executed ; pidem (optional) is_idempotent of its PreparedStatement
+  spec     [policy present?, max_attempts]
   cl       initial consistency level ; pv protocol version ; ks connection keyspace (None | int)
   ps       None (SimpleStatement) | [id, qs, ks|None]   (BoundStatement of that prepared statement)
   known    [[id, qs, ks|None], ...]   contents of cluster._prepared_statements
   script   [[decision 0..3, cl|None], ...]  decisions returned by the retry policy, by consultation number
-  ops      ['start'] | ['resp', attempt_index, resp] | ['run', k] | ['spec'] | ['pool', h, st] | ['ks', k|None]
+  ops      ['start'] | ['start', 'spec_in_borrow'] (speculative timer fires inside the first borrow_connection; same model op)
+           | ['resp', attempt_index, resp] | ['run', k] | ['spec'] | ['pool', h, st] | ['ks', k|None]
   resp     [0] rows | [1] void | [2,id] prepared | [3,kind,tag] retryable error | [4,id,tag] unprepared
            | [5,tag] other ErrorMessage | [6,tag] other exception | [7] junk
   kind     0 read timeout 1 write timeout 2 unavailable 3 overloaded 4 bootstrapping 5 truncate 6 server error
            7 ConnectionException 8 ConnectionShutdown
 The run returns one observation (flat list of ints, see obs encoding below) per op.
 """
+import collections
 import re
 from threading import Lock
 
@@ -72,6 +75,7 @@ class Env(object):
         self.defuncts = 0
         self.registry = {}      # id(response object) -> canonical
         self.nha_snap = {}
+        self.fire_in_borrow = False
         self.keep = []          # keep response objects alive (ids stay unique)
 
 
@@ -92,6 +96,7 @@ class FakeConnection(object):
         self.env, self.hidx = env, hidx
         self.lock = Lock()
         self._requests = {}
+        self.request_ids = collections.deque()     # _query hands the stream id back here when send_msg raises ConnectionBusy
         self.orphaned_request_ids = set()
         self.orphaned_threshold = 10 ** 9
         self.is_defunct = False
@@ -133,6 +138,15 @@ class FakePool(object):
 
     def borrow_connection(self, timeout):
         d = drv()
+        if self.env.fire_in_borrow:
+            # the speculative timer fires on the event-loop thread while the client thread is inside _query for its first
+            # host (nothing sent yet): _on_speculative_execute must only re-arm itself (PYTHON-836)
+            self.env.fire_in_borrow = False
+            for t in self.env.timers:
+                if not t.cancelled and not t.fired and getattr(t.cb, '__name__', '') == '_on_speculative_execute':
+                    t.fired = True
+                    t.cb()
+                    break
         st = self.env.pool_state[self.hidx]
         if st == PNOCONN:
             raise d['PO'].NoConnectionsAvailable()
@@ -441,7 +455,11 @@ class Run(object):
             query = d['Q'].SimpleStatement('SELECT * FROM t')
             params = None
         if sc['ps'] is not None:
+            # 'pidem': is_idempotent of the PreparedStatement at execution time (may differ from the BoundStatement's,
+            # which is the statement actually executed: flag set after binding, or overridden on the bound statement)
             bound = query.bind(())
+            if sc.get('pidem') is not None:
+                query.is_idempotent = bool(sc['pidem'])
             bound.is_idempotent = bool(sc['idem'])
             query = bound
             # _create_response_future binds PreparedStatement itself; pass the BoundStatement so the flag is ours
@@ -474,7 +492,9 @@ class Run(object):
         env, f = self.env, self.future
         k = op[0]
         if k == 'start':
+            env.fire_in_borrow = len(op) > 1 and op[1] == 'spec_in_borrow'
             f.send_request()
+            env.fire_in_borrow = False
         elif k == 'resp':
             i = op[1]
             if i < len(env.sent) and not env.sent[i].get('answered'):
